@@ -5,6 +5,7 @@ CONSTANTS
   Vals = {"x", "y"}
   MaxOps = 4
   Export = FALSE
+  AllPaths = FALSE
 VIEW view
 INVARIANT ExportInv
 PROPERTY Independent
